@@ -254,7 +254,9 @@ enum Prep {
     Backup { tree: MNode, parent: bool, time: i64, cut: Option<u8>, dry_run: bool },
     Forget { ids: Vec<SnapshotId> },
     Save { snaps: Vec<SnapshotFile> },
-    Prune { opts: PruneOptions },
+    /// `deprecated`: through the deprecated public entry points `PruneOptions::get_plan` and
+    /// `PrunePlan::do_prune`
+    Prune { opts: PruneOptions, deprecated: bool },
     RepairIndex { read_all: bool, dry_run: bool },
     RepairSnaps { snaps: Vec<SnapshotFile>, delete: bool, dry_run: bool },
     Rewrite { snaps: Vec<SnapshotFile>, opts: RewriteOptions, trees: Option<RewriteTreesOptions> },
@@ -296,13 +298,23 @@ fn exec(p: &Prep, storage: &Arc<Storage>, cfg: &RepoCfg) -> Result<ExecOut, Stri
                     .save_snapshots(snaps.clone())
                     .map_err(|e| format!("save_snapshots returned an error: {}", estr(&e)))?;
             }
-            Prep::Prune { opts } => {
+            Prep::Prune { opts, deprecated: false } => {
                 let repo = open_repo(storage.handle(), cfg)?;
                 let plan = repo
                     .prune_plan(opts)
                     .map_err(|e| format!("prune_plan returned an error: {}", estr(&e)))?;
                 repo.prune(opts, plan)
                     .map_err(|e| format!("prune returned an error: {}", estr(&e)))?;
+            }
+            Prep::Prune { opts, deprecated: true } => {
+                let repo = open_repo(storage.handle(), cfg)?;
+                #[allow(deprecated)]
+                let plan = opts
+                    .get_plan::<rustic_core::NoProgressBars, _>(&repo)
+                    .map_err(|e| format!("get_plan returned an error: {}", estr(&e)))?;
+                #[allow(deprecated)]
+                plan.do_prune::<rustic_core::NoProgressBars, _>(&repo, opts)
+                    .map_err(|e| format!("do_prune returned an error: {}", estr(&e)))?;
             }
             Prep::RepairIndex { read_all, dry_run } => {
                 let repo = open_repo(storage.handle(), cfg)?;
@@ -481,6 +493,8 @@ pub enum AOp {
     /// save a relabelled copy of an existing snapshot
     Save { sel: u16 },
     Prune(PruneCfg),
+    /// the same through the deprecated `PruneOptions::get_plan` + `PrunePlan::do_prune`
+    PruneDeprecated(PruneCfg),
     RepairIndex { read_all: bool },
     RepairSnapshots { delete: bool, mask: u8 },
     Rewrite(RwCfg),
@@ -520,7 +534,8 @@ fn aop(p: TreeParams) -> BoxedStrategy<AOp> {
         4 => (edits(), prop_oneof![1 => Just(0u8), 4 => 1u8..4, 2 => 4u8..10]).prop_map(|(edits, cut)| AOp::CutBackup { edits, cut }),
         6 => prop::collection::vec(any::<u16>(), 1..3).prop_map(|sel| AOp::Forget { sel }),
         2 => any::<u16>().prop_map(|sel| AOp::Save { sel }),
-        8 => prune_cfg().prop_map(AOp::Prune),
+        6 => prune_cfg().prop_map(AOp::Prune),
+        3 => prune_cfg().prop_map(AOp::PruneDeprecated),
         4 => any::<bool>().prop_map(|read_all| AOp::RepairIndex { read_all }),
         5 => (any::<bool>(), prop_oneof![Just(0u8), any::<u8>()]).prop_map(|(delete, mask)| AOp::RepairSnapshots { delete, mask }),
         6 => rw_cfg().prop_map(AOp::Rewrite),
@@ -719,7 +734,8 @@ impl Phase {
                 s.label = format!("saved-{}", self.nsaved);
                 (Prep::Save { snaps: vec![s] }, Class::Additive)
             }
-            AOp::Prune(p) => (Prep::Prune { opts: p.options(&cfg) }, Class::Destructive),
+            AOp::Prune(p) => (Prep::Prune { opts: p.options(&cfg), deprecated: false }, Class::Destructive),
+            AOp::PruneDeprecated(p) => (Prep::Prune { opts: p.options(&cfg), deprecated: true }, Class::Destructive),
             AOp::RepairIndex { read_all } => (
                 Prep::RepairIndex { read_all: *read_all, dry_run: false },
                 Class::Destructive,
@@ -808,6 +824,7 @@ fn op_name(op: &AOp) -> &'static str {
         AOp::Forget { .. } => "delete_snapshots",
         AOp::Save { .. } => "save_snapshots",
         AOp::Prune(_) => "prune",
+        AOp::PruneDeprecated(_) => "prune_deprecated_api",
         AOp::RepairIndex { .. } => "repair_index",
         AOp::RepairSnapshots { delete: true, .. } => "repair_snapshots_delete",
         AOp::RepairSnapshots { delete: false, .. } => "repair_snapshots_keep",
@@ -1558,7 +1575,7 @@ pub fn spec() -> PropSpec {
     PropSpec {
         id: "C15",
         level: "exploration",
-        rule: "append_only: proptest programs of 1–10 operations {backup, crashed backup (handle dies after 0–9 writes), delete_snapshots, save_snapshots, prune_plan+prune (generated options), repair_index (read_all on/off), repair_snapshots (delete on/off, snapshot subset), rewrite_snapshots / rewrite_snapshots_and_trees (forget on/off, excludes, label/tag changes), apply_config (generated accepted options incl. append-only off = end of program), add_key, delete_key, copy into from a second repository, merge_snapshots, loss of a data pack} on a repository with a generated configuration whose append-only flag is set at init (30 %) or by apply_config after a generated normal-mode history (backups, forgets, prunes, crashed and duplicate backups). Every destructive call is also run on a normal-mode copy to learn whether it would remove or replace a snapshot/index/pack file. Non-trivial = at least one destructive call (delete_snapshots, prune, repair_index, repair_snapshots with delete, rewrite with forget) executed while the flag is on and at least one snapshot exists. dry_run: generated history (1–4 operations incl. crafted states) x one command {backup, repair_index (nothing / pack / index file / both lost), repair_snapshots (undamaged or pack lost + index repaired), rewrite_snapshots[_and_trees], repair_hotcold_except_packs + repair_hotcold_packs on a hot/cold pair with files dropped from either part, prepare_restore (delete on/off, verify-existing, destination empty or restored from some snapshot and then edited: extra files/dirs, changed/removed files, file replaced by directory)} with the dry-run flag. Non-trivial = the command returned Ok and the same command without the flag does write (repository or, for prepare_restore, destination). Distinct by hash of the case.",
+        rule: "append_only: proptest programs of 1–10 operations {backup, crashed backup (handle dies after 0–9 writes), delete_snapshots, save_snapshots, prune_plan+prune (generated options; also through the deprecated PruneOptions::get_plan + PrunePlan::do_prune), repair_index (read_all on/off), repair_snapshots (delete on/off, snapshot subset), rewrite_snapshots / rewrite_snapshots_and_trees (forget on/off, excludes, label/tag changes), apply_config (generated accepted options incl. append-only off = end of program), add_key, delete_key, copy into from a second repository, merge_snapshots, loss of a data pack} on a repository with a generated configuration whose append-only flag is set at init (30 %) or by apply_config after a generated normal-mode history (backups, forgets, prunes, crashed and duplicate backups). Every destructive call is also run on a normal-mode copy to learn whether it would remove or replace a snapshot/index/pack file. Non-trivial = at least one destructive call (delete_snapshots, prune, repair_index, repair_snapshots with delete, rewrite with forget) executed while the flag is on and at least one snapshot exists. dry_run: generated history (1–4 operations incl. crafted states) x one command {backup, repair_index (nothing / pack / index file / both lost), repair_snapshots (undamaged or pack lost + index repaired), rewrite_snapshots[_and_trees], repair_hotcold_except_packs + repair_hotcold_packs on a hot/cold pair with files dropped from either part, prepare_restore (delete on/off, verify-existing, destination empty or restored from some snapshot and then edited: extra files/dirs, changed/removed files, file replaced by directory)} with the dry-run flag. Non-trivial = the command returned Ok and the same command without the flag does write (repository or, for prepare_restore, destination). Distinct by hash of the case.",
         assumptions: vec![
             "append-only mode is judged on handles opened after the flag was stored; a handle that was opened earlier and still holds the old config is not covered",
             "key files and the config file are not among the protected file types of the statement; delete_key / apply_config are executed and only checked against the snapshot/index/pack invariant",
